@@ -254,6 +254,16 @@ def resolve_meta(spec, shared: dict):
         # an equal dict with the opposite key insertion order
         return dict(reversed(list(copy.deepcopy(val).items()))), \
             copy.deepcopy(val)
+    if kind == "nreord":
+        # an equal value whose dicts at every depth have the opposite key
+        # insertion order
+        def rev(v):
+            if isinstance(v, dict):
+                return {k: rev(x) for k, x in reversed(list(v.items()))}
+            if isinstance(v, list):
+                return [rev(x) for x in v]
+            return v
+        return rev(copy.deepcopy(val)), copy.deepcopy(val)
     if kind == "nest":
         # one object the caller keeps: only values *inside* its nested dict
         # and list are updated in place between writes
